@@ -133,7 +133,11 @@ pub open spec fn heap_extended(h: crate::vm::heap::Heap, h2: crate::vm::heap::He
     forall|c: VCell| #[trigger] heap_live(h, c) ==> heap_live(h2, c) && heap_deref(h2, c) == heap_deref(h, c)
 }
 /// address comparison of two references (used by vector-copy! to detect that source and destination are one vector)
-pub assume_specification<T: ?Sized, A: core::alloc::Allocator> [std::rc::Rc::<T, A>::ptr_eq] (a: &std::rc::Rc<T, A>, b: &std::rc::Rc<T, A>) -> (r: bool);
+/// the slot of the destination that element j of the source goes to
+pub open spec fn copy_dest(at: int, start: int, j: int) -> int { at + (j - start) }
+/// two handles on one allocation: for interior-mutable payloads (Vector) a store through one is seen through the other
+pub uninterp spec fn rc_same<T: ?Sized, A: core::alloc::Allocator>(a: std::rc::Rc<T, A>, b: std::rc::Rc<T, A>) -> bool;
+pub assume_specification<T: ?Sized, A: core::alloc::Allocator> [std::rc::Rc::<T, A>::ptr_eq] (a: &std::rc::Rc<T, A>, b: &std::rc::Rc<T, A>) -> (r: bool) ensures r == rc_same(*a, *b);
 pub uninterp spec fn into_vec<T>(x: T) -> Seq<VCell>;
 #[verifier::external_body]
 pub proof fn axiom_into_vec() ensures forall|x: Vec<VCell>| #[trigger] into_vec::<Vec<VCell>>(x) == x@ {}
@@ -251,6 +255,14 @@ UNITS = [
                         start <= end <= vector_view(*from_vector).len(), at + (end - start) <= vector_view(*to_vector).len(), vector_view(*to_vector).len() <= usize::MAX,
                         forall|j: int| start <= j < i ==> #[trigger] vector_written(*to_vector, at + (j - start), vector_view(*from_vector)[j]),'''},
                 'loop_count': 2,
+                # Vector::get is modelled against the contents at entry (vector_view is a function of the handle).  That is what a read
+                # returns as long as the slot read has not been stored to before: always, when source and destination are different
+                # allocations; when they are one vector, only if slot i is not among the slots already written -- which each loop proves
+                # here for its own direction (R7RS: the copy behaves as if the source were first copied to a temporary)
+                'loop_obligations': {
+                    0: 'proof { assert(rc_same(to_rc, from_rc) ==> forall|j: int| i < j < end ==> #[trigger] copy_dest(at as int, start as int, j) != i); }',
+                    1: 'proof { assert(rc_same(to_rc, from_rc) ==> forall|j: int| start <= j < i ==> #[trigger] copy_dest(at as int, start as int, j) != i); }',
+                },
             },
             '::make_vector': {
                 'props': T, 'requires': POP_REQ,
